@@ -478,31 +478,23 @@ impl Decompressor {
 
         let archive_version = ragc_common::AGC_FILE_MAJOR * 1000 + ragc_common::AGC_FILE_MINOR;
         let ref_stream_name = stream_ref_name(archive_version, group_id);
-        let stream_id = self
-            .archive
+        self.archive
             .get_stream_id(&ref_stream_name)
             .ok_or_else(|| anyhow!("Reference stream not found: {}", ref_stream_name))?;
 
-        let (mut data, metadata) = self.archive.get_part_by_id(stream_id, 0)?;
-        // Decompress if needed; metadata holds original length for packed format
-        let decompressed = if data.is_empty() {
-            Vec::new()
-        } else if data.last() == Some(&0) {
-            // Plain ZSTD stream with marker 0
-            data.pop();
-            decompress_segment_with_marker(&data, 0)?
-        } else {
-            // Tuple-packed with marker 1
-            let marker = data.pop().unwrap();
-            decompress_segment_with_marker(&data, marker)?
+        // The reference is part 0 of the group's reference stream. Decode it exactly as
+        // get_segment does (metadata 0 = stored raw, otherwise marker byte + packed data), so the
+        // answer and the cached value do not depend on which query loaded the reference first.
+        if group_id < 16 {
+            anyhow::bail!("Raw group {group_id} has no reference segment");
+        }
+        let desc = SegmentDesc {
+            group_id,
+            in_group_id: 0,
+            is_rev_comp: false,
+            raw_length: 0,
         };
-
-        // Unpack 2-bit encoded reference to 1-byte bases if needed
-        // decompress_segment_with_marker returns bytes in the stored format for references
-        // Our helper already returns decompressed raw bytes for references
-        let reference = decompressed;
-        self.segment_cache.insert(group_id, reference.clone());
-        Ok(reference)
+        self.get_segment(&desc)
     }
 
     /// Extract all contigs from a sample
